@@ -385,7 +385,7 @@ func (e *Engine) coinsTotal(st *State, coins Val) string {
 	sl := types.Unalias(coins.T).Underlying().(*types.Slice)
 	hn, hs := e.vc.arrHeapName(sl.Elem())
 	ss := e.vc.structInfo(sl.Elem())
-	c0 := app("select", app("select", e.heap(st, hn, hs), app("sptr", coins.S)), app("soff", coins.S))
+	c0 := app("select", app("select", e.heap(st, hn, hs), app("sptr", coins.S)), app("idx", app("soff", coins.S), "0"))
 	e.vc.declFun("coins_total_n", []string{"Slice"}, "Int")
 	n := app("slen", coins.S)
 	t := e.vc.define("coins", "Int", ite(eq(n, "0"), "0", ite(eq(n, "1"), app(ss.fields[1], c0), app("coins_total_n", coins.S))))
@@ -574,6 +574,18 @@ func (e *Engine) specFunc(y *ECall, env *evalEnv) (Val, bool) {
 				return Val{S: e.heap(m.GSt, m.G.name+"_d", "Bool"), T: specBool}, true
 			}
 		}
+	case "seen":
+		// seen(k): key k of the map ranged over by the loop under consideration has already been visited
+		if env.fr != nil && env.loop != nil {
+			for _, b := range env.loop.header.Instrs {
+				if nx, ok := b.(*ssa.Next); ok {
+					if it := env.fr.iters[nx.Iter]; it != nil {
+						return Val{S: app("select", e.heap(env.st, it.seen, e.heapSorts[it.seen]), arg(0).S), T: specBool}, true
+					}
+				}
+			}
+		}
+		return e.evalErr("seen() outside a map-range loop invariant"), true
 	case "deref":
 		p := arg(0)
 		pt, ok := types.Unalias(p.T).Underlying().(*types.Pointer)
@@ -611,6 +623,16 @@ func (e *Engine) specFunc(y *ECall, env *evalEnv) (Val, bool) {
 			return e.evalErr("sdk.Msg type not found"), true
 		}
 		return Val{S: app("tx_msgs", x.S), T: types.NewSlice(mt)}, true
+	case "allocated":
+		// allocated(p): p refers to an object that exists at this point (not nil, allocated earlier)
+		p := arg(0)
+		return Val{S: and(app("<", "0", p.S), app("<", p.S, env.st.top)), T: specBool}, true
+	case "ishex":
+		e.vc.declFun("isnum16", []string{"Str"}, "Bool")
+		return Val{S: app("isnum16", arg(0).S), T: specBool}, true
+	case "hexnum":
+		e.vc.declFun("numval16", []string{"Str"}, "Int")
+		return Val{S: app("numval16", arg(0).S), T: specInt}, true
 	case "zerotime":
 		return Val{S: timeZeroNs, T: specInt}, true
 	case "coins":
